@@ -78,6 +78,13 @@ class NpProxy(types.ModuleType):
         return NpProxy.array(obj, dtype, *a, **k)
 
     @staticmethod
+    def genfromtxt(*a, **k):
+        from . import textio
+        if textio.STATE['active']:
+            return textio.genfromtxt(*a, **k)
+        return np.genfromtxt(*a, **k)
+
+    @staticmethod
     def arange(*a, **k):
         if any(isinstance(x, S.SR) for x in a):
             a = [S.sym_unique_value(x) if isinstance(x, S.SR) else x for x in a]
@@ -203,6 +210,9 @@ def install():
             d['np'] = NP
         d['max'] = sym_builtin_max
         d['min'] = sym_builtin_min
+        if name == 'eqsig.loader':
+            from . import textio
+            d['float'] = textio.sym_float
         for k, v in list(d.items()):
             r = repl.get(id(v))
             if r is not None and r[0] is v:
